@@ -101,5 +101,12 @@ func vfCheckAbandoned(ob string, u *vfUniverse) {
 			vf.Assert(!shared, ob)
 			vf.Assert(idx == nil, ob)
 		}
+		// the tx index itself holds no entry for it either (swapTxMapping removes the mapping of abandoned-only txs)
+		_, _, rawErr := u.cs.cdb.getTx(tx.Hash)
+		if rawErr == nil {
+			vf.Assert(shared, ob)
+		} else {
+			vf.Assert(!shared, ob)
+		}
 	}
 }
